@@ -24,6 +24,8 @@ func init() {
 			{"C15.R7", "q", "route table decodes every bucket id", c15r7},
 			{"C15.R8", "q", "who may mark a bucket as served", c15r8},
 			{"C08.R4", "q", "shared: upper tree refreshed from READY buckets, reset on every refresh", c08r4},
+			{"C15.R9", "q", "path keys invert ParsePathUint64 for all 16 digits", c15r9},
+			{"C15.R10", "q", "tree parameters derived after the number of buckets is final", c15r10},
 		},
 	})
 }
@@ -131,6 +133,7 @@ func c15r1(c *Ctx) {
 		})
 		c.check(okRel, R, f.Key+": not-ready branch releases the payload and stores nothing", f.Pos(), "SubSizeAndCount + Free, no checkAndSet", "the not-ready branch of HStore.Set no longer releases the payload (or stores)")
 	}
+	c15r1b(c)
 }
 
 func c15r2(c *Ctx) {
